@@ -325,6 +325,7 @@ class _Monitor:
         self.tables = None
         self.last_tables = None
         self.watch_tables = True
+        self.tables_enabled = True
         self.wrapped_crs = set()
         names = [n for n in dir(np.random.RandomState) if not n.startswith("_") and hasattr(np.random, n)]
         self.entry_points = len(names)
@@ -405,7 +406,7 @@ class _Monitor:
         self._wrap_check_random_state()
         self.touches = []
         self.config = config
-        self.watch_tables = tables
+        self.watch_tables = tables = tables and self.tables_enabled
         if tables:
             with self.as_foreign():
                 # the table state at the end of the previous monitored run is the state this run starts from (nothing but
@@ -769,9 +770,11 @@ def _private_sampler_plugin():
 _QUIET = {"name": "quiet", "reuse": "fresh", "others": 0, "pre": [], "between": [], "inside": [], "interleave": []}
 
 
-def _run_schedule(spec, sched, mon):
+def _run_schedule(spec, sched, mon, tables=True):
     from ropt.ensemble_evaluator import EnsembleEvaluator
-    mon.begin_schedule()
+    mon.tables_enabled = tables
+    if tables:
+        mon.begin_schedule()
     session = _Session()
     manager = session.manager
     quiet = dict(_QUIET, pre=sched["pre"][:1])
@@ -845,7 +848,9 @@ def _basic_optimizer_rerun(spec):
 def _child(payload):
     """Entry point of a fresh interpreter: the workload of the configuration, and (reference only) the same once more."""
     mon = _Monitor.get()
-    out = _run_schedule(payload["spec"], dict(_QUIET, name=payload["name"]), mon)
+    # the very first run of the interpreter is left alone: no table snapshot (taking one creates a PluginManager, which
+    # would load the entry points before the run does)
+    out = _run_schedule(payload["spec"], dict(_QUIET, name=payload["name"]), mon, tables=False)
     out["entry_points"] = mon.entry_points
     if not payload.get("again"):
         return {"ref": out}
@@ -1045,23 +1050,33 @@ def search(rng, case):
 
 
 MANIFEST = {
-    "level_text": ("Machine-checked Coq proof of non-interference for an abstract machine of an optimization run (Model/Rng.v): for every "
-                   "sampling program, evaluator, optimizer strategy, configuration and step budget, if the run itself does not touch the "
-                   "process-global generator then for ALL schedules of foreign operations on it (any number, before the run, between "
-                   "evaluations, inside the evaluator) and ALL initial global states the sequence of evaluator requests, results and the "
-                   "exit code are identical; the k-th run of a process equals the same configuration run alone (the run-local generator is "
-                   "re-derived from the configuration's seed); a sampler that draws from the global generator is counted and does interfere.  "
-                   "The premise is tied to the code on every run: a monitor counts touches of NumPy's legacy global generator from ropt/SciPy "
-                   "during real optimizations (must be 0) and the byte-exact traces of each configuration under fresh interpreters, other hash "
-                   "seeds, preceding runs, reused PluginManager/OptimizerContext and global reseeding are compared inside Coq with the machine's "
-                   "answer; another seed must change the perturbations."),
-    "level_note": ("PARTIAL: the Coq model covers interference through the process-global NumPy generator only; state hidden in CPython, NumPy, "
-                   "SciPy or LAPACK (object caches, hash seeds, thread scheduling) is outside the model and is exercised only by the schedules "
-                   "(fresh interpreters, another PYTHONHASHSEED, preceding different runs, reused plug-in managers and contexts).  "
-                   "C16_seed_matters_partial assumes injectivity of default_rng and of the sampler in the generator state; the real claim is "
-                   "checked on the implementation.  Trusted: Coq kernel + VM; the monitor (wrapped np.random entry points, wrapped "
-                   "check_random_state, state fingerprints of mtrand._rand); SHA-256 digests of the exact bytes (Coq compares 60-bit prefixes, "
-                   "the Python oracle full digests).  All theorems print 'Closed under the global context'."),
-    "technique": "Coq proof (non-interference by induction over the run of a parametric machine with sampling programs) + monitored premise + in-Coq comparison of byte-exact traces of real optimizations across schedules",
+    "level_text": ("Machine-checked Coq proof of non-interference for an abstract machine of an optimization run (Model/Rng.v) whose process-"
+                   "persistent state is split into generator-like state G (NumPy's legacy global generator, the random_state of the scipy.stats "
+                   "distributions: every access is a write, other code may do anything to it at any time) and table-like state T (module-level "
+                   "containers, class attributes, cached plug-in instances, the configuration object: readable at will, writes are counted): for "
+                   "every start-up and sampling program, evaluator, optimizer strategy, configuration and step budget, if the run itself neither "
+                   "touches G nor writes T then for ALL schedules of foreign operations on G (any number, before the run, between evaluations, "
+                   "inside the evaluator, including complete other runs) and ALL initial states of G the sequence of evaluator requests, results "
+                   "and the exit code are identical, T is handed back unchanged and G is left exactly as the foreign operations made it; the k-th "
+                   "run of a process of such runs equals the same configuration run alone (the run-local generator is re-derived from the "
+                   "configuration's seed) and the order of the jobs is irrelevant; a sampler that draws from the global generator, and a run that "
+                   "writes the tables, are counted and do interfere.  The premise is tied to the code on every run: a monitor counts accesses of G "
+                   "and writes of T from ropt/SciPy during real optimizations (must be 0) and the byte-exact traces of each configuration and "
+                   "workload (optimizer step + gradient probe, evaluator steps, the same step twice, nested plan sharing the configuration) under "
+                   "fresh interpreters with two hash seeds, preceding and interleaved other runs, reused PluginManager / OptimizerContext / Plan / "
+                   "step / EnOptConfig objects and reseeding of G are compared inside Coq with the machine's answer; another seed must change the "
+                   "perturbations."),
+    "level_note": ("PARTIAL: the Coq model covers interference through the state the monitor fingerprints -- generator-like: numpy.random.mtrand._rand "
+                   "and the random_state of scipy.stats uniform/norm/truncnorm; table-like: module-level containers and class attributes of all loaded "
+                   "ropt modules, attributes of the plug-in instances shared by every PluginManager, the configuration object (compared at the start of "
+                   "a schedule and at the end of a run) -- state hidden elsewhere in CPython, NumPy, SciPy or LAPACK (other caches, OS entropy, thread "
+                   "scheduling) is outside the model and is exercised only by the schedules (fresh interpreters with PYTHONHASHSEED 0 and another one, "
+                   "preceding and interleaved different runs, reused objects).  The replay machine is built from the reference run, so the in-Coq "
+                   "comparison is 'every schedule = reference'; a defect that shows identically in every schedule can only be seen by the "
+                   "intra-run comparison (same step twice) and the hash-seed pair.  C16_seed_matters_partial assumes injectivity of default_rng, of "
+                   "the start-up and of the sampler in the generator state; the real claim is checked on the implementation.  Trusted: Coq kernel + "
+                   "VM; the monitor; SHA-256 digests of the exact bytes (Coq compares 60-bit prefixes, the Python oracle full digests).  All theorems "
+                   "print 'Closed under the global context'."),
+    "technique": "Coq proof (non-interference and frame property by induction over the run of a parametric machine with start-up and sampling programs over local, generator-like and table-like state) + monitored premise (touches of G, writes of T) + in-Coq comparison of byte-exact traces of real optimizations across schedules",
     "design_ref": "DESIGN.md section 4, C16",
 }
